@@ -365,3 +365,54 @@ def text_shapes():
                         yield ('id%d:%s%s*%d+%s' % (idt, pname, rname, n, ename), IDI, gp(0, bytes([idt, 0, 0, 0]) + text))
                     if not prefix:
                         yield ('vendor:%s*%d+%s' % (rname, n, ename), VENDOR, gp(0, text))
+
+
+# ------------------------------------------------------------------ payloads in the clear in front of the Encrypted payload
+
+CP, EAP = 47, 48
+
+
+def wellformed_bodies():
+    """type -> list of (label, body): minimal well-formed bodies of every payload type of RFC 7296 (also the ones the
+    library does not implement: CERT, CERTREQ, CP, EAP) and of an unknown type"""
+    sel = struct.pack('>BBHHH4s4s', 7, 0, 16, 0, 65535, b'\x0a\0\0\1', b'\x0a\0\0\2')
+    tr = struct.pack('>BBHBBH', 0, 0, 8, 3, 0, 12)
+    out = {SA: [('one-proposal', struct.pack('>BBHBBBB', 0, 0, 16, 1, 3, 0, 1) + tr)],
+           KE: [('group19', bytes([0, 19, 0, 0]) + b'k' * 64)],
+           IDI: [('fqdn', bytes([2, 0, 0, 0]) + b'a.example')], IDR: [('rfc822', bytes([3, 0, 0, 0]) + b'b@example.org')],
+           CERT: [('x509', b'\x04' + b'c' * 12)], CERTREQ: [('x509', b'\x04' + b'h' * 20)],
+           AUTH: [('psk', bytes([2, 0, 0, 0]) + b'a' * 32)], NONCE: [('16', b'n' * 16)],
+           NOTIFY: [('status', bytes([0, 0, 0x40, 0x00]))], DELETE: [('ike', bytes([1, 0, 0, 0]))],
+           VENDOR: [('text', b'vendor')], TSI: [('one', bytes([1, 0, 0, 0]) + sel)], TSR: [('one', bytes([1, 0, 0, 0]) + sel)],
+           EAP: [('request', bytes([1, 1, 0, 5, 1]))], 49: [('unknown', b'u' * 5)], 255: [('unknown', b'')]}
+    cps = []
+    for cfg in (1, 2):
+        cps.append(('cfg%d-empty' % cfg, bytes([cfg, 0, 0, 0])))
+        for at in (1, 2, 3, 6, 7, 8, 10, 13, 15, 0x7FFF):
+            for n in (0, 1, 3, 4, 5, 8, 15, 16, 17, 32):
+                for rbit in (0, 0x8000):
+                    cps.append(('cfg%d-attr%d%s-len%d' % (cfg, at, '+R' if rbit else '', n),
+                                bytes([cfg, 0, 0, 0]) + struct.pack('>HH', at | rbit, n) + bytes(range(1, n + 1))))
+            cps.append(('cfg%d-attr%d-len-beyond' % (cfg, at), bytes([cfg, 0, 0, 0]) + struct.pack('>HH', at, 40) + b'1234'))
+            cps.append(('cfg%d-attr%d-two' % (cfg, at), bytes([cfg, 0, 0, 0]) + struct.pack('>HH', at, 4) + b'abcd'
+                        + struct.pack('>HH', at, 3) + b'xyz'))
+    out[CP] = cps
+    return out
+
+
+def prefixed_sk(prefix, inner_first, inner_chain, keys, iv, aes_cbc_encrypt, hdr):
+    """datagram = header + the payloads of `prefix` ([(type, body)]) in the clear + an Encrypted payload (correct ICV) whose
+    plaintext is inner_chain.  hdr = (spi_i, spi_r, exchange, flags, message id)"""
+    clear = b''
+    for i, (t, body) in enumerate(prefix):
+        nxt = prefix[i + 1][0] if i + 1 < len(prefix) else SK
+        clear += struct.pack('>BBH', nxt, 0, 4 + len(body)) + body
+    pt = bytes(inner_chain)
+    npad = 15 - len(pt) % 16
+    pt += bytes(npad) + bytes([npad])
+    body = bytes(iv) + aes_cbc_encrypt(keys.sk_e, bytes(iv), pt) + bytes(keys.icv)
+    sk = struct.pack('>BBH', inner_first, 0, 4 + len(body)) + body
+    first = prefix[0][0] if prefix else SK
+    out = bytearray(header(hdr[0], hdr[1], first, hdr[2], hdr[3], hdr[4], HDR + len(clear) + len(sk)) + clear + sk)
+    out[-keys.icv:] = keys.mac(bytes(out[:-keys.icv]))
+    return bytes(out)
